@@ -78,7 +78,12 @@ CLAIM = dict(
           "evaluated on EVERY net's tree against "
           "that net's own sinks, plus the check that the trees of different Net objects share no RoutingTree node "
           "object; the error clause being decided by the Lean strong-connectivity computation cross-checked against "
-          "an independent Python one."),
+          "an independent Python one. The same judgement (model comparison + validTree + permitted failures, plus "
+          "`did-not-return` for a call exceeding ~100x its normal CPU time, since the model provably terminates) is "
+          "applied to the API-kind options of the single-net stream, to every step of the HISTORY stream (several "
+          "route() calls in one freshly reloaded process on objects the caller keeps, edits in place and passes "
+          "again; earlier results re-read after later calls) and to the direct a_star / longest_dimension_first "
+          "calls in all their calling conventions."),
     design="3/C03",
     note=("All theorems are about the Lean model of the FIXED code (fixes/c03-avoid-dead-links-parent.diff applied: "
           "model flag legacy = false); for the unfixed loop avoidDeadLinks_valid is false (legacy_two_parents_witness). "
@@ -92,7 +97,48 @@ CLAIM = dict(
           "from rig/links.py and routing_table/entries.py on every run. Stub branches (childless non-sink nodes) "
           "left behind by the repair are observed on the real code and are not treated as a violation. The harness "
           "also checks the proved facts on the executable model per case (model result valid; model Disconnected "
-          "only on a machine the oracle rejects) as a consistency tie between theorems and driver."),
+          "only on a machine the oracle rejects) as a consistency tie between theorems and driver. "
+          "HARDENING CHECKLIST - (1) argument kinds: vertices as int, big int (2^31..2^100), float, str with % and {}, "
+          "bytes, tuples of length 0-3, namedtuple, frozenset, plain object (mixed inside one net); nets as list / tuple "
+          "/ generator / one-shot iterator / dict keys view; constraints as list / tuple / generator, with unrelated "
+          "constraint kinds and a constraint naming a stranger vertex; a single sink given bare (`sinks : list or "
+          "vertex`); subclasses of Machine, Net, RouteEndpointConstraint; chips as tuple / namedtuple; dead links as "
+          "Links members / plain ints, dead sets as set / frozenset; radius as int / bool / IntEnum member; "
+          "vertices_resources real / empty / None (route() never reads it); placements and allocations holding "
+          "vertices outside the net. Not applicable: numpy ints (rig passes none into route()), byte strings (no such "
+          "argument), sinks as tuple/set (documented: a non-list IS one vertex), chips as lists (used as dict keys: "
+          "illegal), slices with None bounds (allocate() never produces them), BIG machine sizes / coordinates "
+          "(Machine and has_wrap_around_links enumerate the border: sizes are bounded by what can be enumerated; the "
+          "extreme-shape stream goes to 2100 chips), BIG radii: kept OUT of the generators on purpose (radius <= 64 "
+          "is generated) because route() materialises all 3r(r+1)+1 hexagon offsets for ANY machine - reported to the "
+          "coordinator as a candidate finding. (2) optional parameters: route(allocations, core_resource, radius) "
+          "each omitted / default value / non-default value, positionally, by keyword, and all arguments by keyword; "
+          "core_resource as str / tuple / object with a decoy entry under the default key; "
+          "longest_dimension_first(start, width, height) omitted / given / by keyword; a_star by keyword. Left at "
+          "their defaults: ner_net(wrap_around, radius) and avoid_dead_links(wrap_around) have defaults route() "
+          "never uses (it always passes both; both values of wrap_around and many radii flow through), "
+          "RoutingTree(children=...) and Net(weight=...) are not observable through the property (weight is varied). "
+          "(3) scale: extreme-shape stream (2100-chip rings / strips, trees > 1000 levels, repair on them, a "
+          "broadcast to all 255 / 575 other chips), large-net stream; nothing in scope is counted in 8 or 16 bits "
+          "(cores 0..17 and routes 0..23 are enumerated fully). (4) histories: HISTORY stream - 2-5 calls in one "
+          "process after importlib.reload of the router module (module-level state: memoised hexagons, the mutable "
+          "default `allocations={}`), the same call repeated, twins differing in exactly one of radius / one dead "
+          "link / one revived link / one sink added, removed, moved / one vertex's cores / calling convention / tape "
+          "/ a cut-off sink / a different machine, in both orders; the replay payload is the whole history. (5) the "
+          "caller keeps and edits: with `share` the SAME Machine (dead_links / dead_chips sets edited in place), "
+          "placements / allocations dicts, constraints list and Net object (source, sinks[:] edited) are passed "
+          "again; handed-back trees and the routes dict are vandalised (children cleared / reversed / junk and a "
+          "cycle appended, chip changed, dict cleared) before the next call; untouched earlier results are "
+          "re-serialised after every later call (`earlier-result-changed` is a violation: the property is about the "
+          "returned tree); iter(tree) and tree.traverse() are advanced alternately, left half-way and resumed after "
+          "the next call (difference = correspondence mismatch, not demanded by the property). (6) faults then "
+          "continued use: the only failure in scope is MachineHasDisconnectedSubregion; histories continue on the same "
+          "objects after it (cut-off twin, then the healed machine); there is no connection / callback / allocation "
+          "to fail. (7) configuration: link and chip states (all streams), Machine chip_resources / "
+          "chip_resource_exceptions differing between chips; nothing else configures route(). (8) every "
+          "implementation call runs under common.cpu_limit (5 s + w*h/40 s of CPU, lowered after 3 and 10 hangs): "
+          "`did-not-return` is a violation because the model terminates by theorem (route_only_failure). (9) tags "
+          "api_*, hist_*, direct_*_call_*, radius_beyond_the_machine, err_DidNotReturn."),
     technique="Lean 4 theorems over a hand-written model + differential correspondence + Lean spec as oracle")
 
 THEOREMS = ["link_tables", "validTree_iff", "validTree_connects", "aStar_path", "copyAndDisconnect_live",
@@ -124,7 +170,13 @@ RULE = ("machines 1x1..12x12 (incl. 1xN, 2xN), torus / mesh / partly wrapped, 0-
         "the oracle; EXTREME-shape stream (6 quick / 9 thorough fixed shapes with random parameters): 2100x1 and "
         "1x2100 rings, 1x1500 and 2100x1 mesh strips, 1200x2 torus and mesh, sinks > 1000 hops from the source, long "
         "chains of sinks, trees > 1000 levels deep, two of them with one dead directed link on the way so that the "
-        "repair runs on a deep tree; multi-net stream (500 quick / 15000 thorough): ONE route() call with 2-6 nets drawn from a small "
+        "repair runs on a deep tree, plus a broadcast to every other chip of a 16x16 (quick) / 24x24 (thorough) machine; "
+        "half of the single-net cases carry API-kind options (see CLAIM.note (1), (2)), radius additionally 3 and 64 "
+        "(beyond every machine of the stream); HISTORY stream (250 quick / 6000 thorough): 2-5 route() calls in one "
+        "process on machines up to 8x8, twins in both orders, half of them re-using and editing the passed objects "
+        "in place, results kept / vandalised / iterated lazily; direct a_star / longest_dimension_first calls in "
+        "every calling convention (sources as set / frozenset, Machine subclass, keywords, ldf without width/height "
+        "and without start); multi-net stream (500 quick / 15000 thorough): ONE route() call with 2-6 nets drawn from a small "
         "pool of chips - same source chip and same set of sink chips but other vertices / cores / endpoint routes, "
         "identical nets, the same Net object twice, partial overlaps, shared sink vertices - non-trivial when two nets "
         "between the same chips differ in their sinks or an A* detour occurred. A single-net case is non-trivial when the dead-link repair ran with at least one A* detour or the net "
@@ -188,7 +240,7 @@ def gen_net(rng, mach):
         kinds[v] = gen_kind(rng)
         sinks.append(v)
     return dict(place={str(k): v for k, v in place.items()}, kinds={str(k): v for k, v in kinds.items()},
-                sinks=sinks, radius=rng.choice([0, 1, 2, 20, 20]))
+                sinks=sinks, radius=rng.choice([0, 1, 2, 20, 20, 20, 3, 64]))
 
 
 def gen_kind(rng):
@@ -256,7 +308,7 @@ def nest(node, budget):
     return [node.chip[0], node.chip[1], subs, leaves]
 
 
-def flat_tree(root, budget):
+def flat_tree(root, budget, vid=None):
     """Flat pre-order serialisation of the object graph under `root`:
     [[x, y, [[dir, child_index], ...], [[route, vertex], ...]], ...], entry 0 = root, child indices larger than
     the parent's.  Iterative (routing trees may be thousands of hops deep); `budget` bounds the number of
@@ -283,7 +335,7 @@ def flat_tree(root, budget):
                     descended = True
                     break
             else:
-                out[idx][3].append([None if r is None else int(r), ch])
+                out[idx][3].append([None if r is None else int(r), ch if vid is None else vid(ch)])
         if not descended:
             stack.pop()
     return out
@@ -304,34 +356,279 @@ def build_machine(mach):
                    dead_links=set((x, y, Links(l)) for x, y, l in mach["dead_links"]))
 
 
-def run_impl(case):
-    """route() of the real code on one net; returns (result, rec)"""
+_HANGS = [0]
+
+
+def cpu_budget(mach):
+    """~100x the normal time of one route() call on a machine of that size; lowered after three hangs"""
+    lim = 5 + mach["w"] * mach["h"] / 40.0
+    if _HANGS[0] < 3:
+        return lim
+    return 1.0 if _HANGS[0] < 10 else 0.05      # the run is failing anyway: keep it short
+
+
+VKINDS = ["int", "int", "str", "tuple0", "tuple1", "tuple2", "tuple3", "namedtuple", "frozenset", "object", "bigint",
+          "float", "bytes"]
+_BIG = [2 ** 31, 2 ** 32, 2 ** 53 + 1, 2 ** 63, 2 ** 64, 2 ** 100]
+
+
+class _PlainVertex(object):
+    __slots__ = ["n"]
+
+    def __init__(self, n):
+        self.n = n
+
+    def __repr__(self):
+        return "<vertex %% {} {0} %d>" % self.n
+
+
+def vertex_object(i, kind):
+    """the i-th vertex of a case as a hashable identifier of the given kind (pairwise different for different i)"""
+    import collections
+    if kind == "str":
+        return "v%d %%s %%(x)d {} {0} {x}" % i
+    if kind == "tuple0":
+        return () if i == 0 else ((), i)
+    if kind == "tuple1":
+        return (i,)
+    if kind == "tuple2":
+        return ("v", i)
+    if kind == "tuple3":
+        return (i, None, "v")
+    if kind == "namedtuple":
+        return collections.namedtuple("Vertex", "index label")(i, "nt")
+    if kind == "frozenset":
+        return frozenset([i, "v"])
+    if kind == "object":
+        return _PlainVertex(i)
+    if kind == "bigint":
+        return _BIG[i % len(_BIG)] + i
+    if kind == "float":
+        return i + 0.5
+    if kind == "bytes":
+        return b"v%d" % i
+    return i
+
+
+def gen_api(rng, net):
+    """how the caller spells the call: argument kinds and calling conventions the API legally accepts"""
+    nv = len(net["place"])
+    has_cores = any(k[0] == 1 for k in net["kinds"].values())
+    api = dict(
+        vkinds=[rng.choice(VKINDS) for _ in range(nv)] if rng.random() < 0.7 else ["int"] * nv,
+        nets_as=rng.choice(["list", "tuple", "generator", "iter", "dictkeys"]),
+        constraints_as=rng.choice(["list", "tuple", "generator"]),
+        extra_constraints=rng.random() < 0.5, constraint_subclass=rng.random() < 0.4,
+        net_subclass=rng.random() < 0.4, machine_subclass=rng.random() < 0.4,
+        bare_sink=rng.random() < 0.5,
+        allocations=("omitted" if not has_cores and rng.random() < 0.5 else "given"),
+        allocations_extra=rng.random() < 0.5,
+        core_resource=rng.choice(["positional", "omitted", "keyword", "custom_str", "custom_tuple", "custom_object"]),
+        radius_as=rng.choice(["positional", "keyword", "omitted", "bool", "intenum"]),
+        call=rng.choice(["positional", "keyword", "mixed"]),
+        links_as=rng.choice(["enum", "int"]), dead_as=rng.choice(["set", "frozenset"]),
+        chip_as=rng.choice(["tuple", "namedtuple"]),
+        machine_resources=rng.random() < 0.5, placements_extra=rng.random() < 0.5,
+        resources_arg=rng.choice(["real", "empty", "none"]), weight=rng.choice([1.0, 0, 3, 0.25]))
+    return api
+
+
+def run_impl(case, env=None):
+    """route() of the real code on one net; returns (result, rec).  `case["api"]` (optional) says how the caller
+    spells the call; `env` (optional, a dict living as long as a history) makes the caller re-use and edit in place
+    the objects it passed before"""
     from rig.place_and_route.route import ner
     from rig.place_and_route.route import utils as rutils
     import rig.geometry as geometry
-    from rig.place_and_route.machine import Cores
-    from rig.place_and_route.constraints import RouteEndpointConstraint
+    from rig.place_and_route.machine import Machine, Cores, SDRAM
+    from rig.place_and_route.constraints import RouteEndpointConstraint, LocationConstraint, \
+        ReserveResourceConstraint, SameChipConstraint
     from rig.place_and_route.routing_tree import RoutingTree
     from rig.netlist import Net
     from rig.routing_table import Routes
+    from rig.links import Links
+    from harness import common
+    import collections
+    import enum
 
     mach, net = case["machine"], case["net"]
-    machine = build_machine(mach)
-    place = {int(k): tuple(v) for k, v in net["place"].items()}
+    api = case.get("api") or {}
+    tags = []
+    nv = len(net["place"])
+    vk = api.get("vkinds") or ["int"] * nv
+    vobj = [vertex_object(i, vk[i] if i < len(vk) else "int") for i in range(nv)]
+    vid = {}
+    for i, o in enumerate(vobj):
+        vid[o] = i
+    for k in set(vk):
+        if k != "int":
+            tags.append("api_vertex_" + k)
+    # --- the machine
+    link = (lambda l: Links(l)) if api.get("links_as", "enum") == "enum" else (lambda l: int(l))
+    mk_set = frozenset if api.get("dead_as") == "frozenset" else set
+    dead_chips = mk_set(tuple(c) for c in mach["dead_chips"])
+    dead_links = mk_set((x, y, link(l)) for x, y, l in mach["dead_links"])
+    mkw = {}
+    if api.get("machine_resources"):
+        mkw = dict(chip_resources={Cores: 3, SDRAM: 7, "other %s {}": 1},
+                   chip_resource_exceptions={(0, 0): {Cores: 0}, (mach["w"] - 1, mach["h"] - 1): {Cores: 17, SDRAM: 1}})
+        tags.append("api_machine_resources_differ_between_chips")
+    MachineClass = Machine
+    if api.get("machine_subclass"):
+        class MachineClass(Machine):
+            pass
+        tags.append("api_machine_subclass")
+    if api.get("links_as") == "int":
+        tags.append("api_dead_links_as_int")
+    shared = env is not None and env.get("share")
+    old_m = env.get("machine") if shared else None
+    if old_m is not None and (old_m.width, old_m.height) == (mach["w"], mach["h"]) and \
+            isinstance(old_m.dead_links, set) and isinstance(old_m.dead_chips, set):
+        machine = old_m                       # the caller edits the machine it passed before, in place
+        machine.dead_chips.clear()
+        machine.dead_chips.update(dead_chips)
+        machine.dead_links.clear()
+        machine.dead_links.update(dead_links)
+        tags.append("hist_machine_edited_in_place")
+    else:
+        machine = MachineClass(mach["w"], mach["h"], dead_chips=dead_chips, dead_links=dead_links, **mkw)
+    if env is not None:
+        env["machine"] = machine
+    # --- placements, allocations, constraints
+    Chip = collections.namedtuple("Chip", "x y")
+    mk_chip = (lambda c: Chip(c[0], c[1])) if api.get("chip_as") == "namedtuple" else tuple
+    if api.get("chip_as") == "namedtuple":
+        tags.append("api_chip_namedtuple")
     kinds = {int(k): v for k, v in net["kinds"].items()}
-    allocations, constraints = {}, []
+    cr_mode = api.get("core_resource", "positional")
+    core_key = {"custom_str": "cores %s {}", "custom_tuple": ("cores", 0), "custom_object": _PlainVertex(-1)}.get(
+        cr_mode, Cores)
+    new_place = {vobj[int(k)]: mk_chip(v) for k, v in net["place"].items()}
+    new_alloc, new_constraints = {}, []
+    EndpointClass = RouteEndpointConstraint
+    if api.get("constraint_subclass"):
+        class EndpointClass(RouteEndpointConstraint):
+            pass
+        tags.append("api_constraint_subclass")
     for v, (k, a, b) in sorted(kinds.items()):
         if k == 1:
-            allocations[v] = {Cores: slice(a, b)}
+            new_alloc[vobj[v]] = {core_key: slice(a, b)}
+            if core_key is not Cores:
+                new_alloc[vobj[v]][Cores] = slice((a + 5) % 17, 18)        # a decoy under the default key
+            if api.get("allocations_extra"):
+                new_alloc[vobj[v]][SDRAM] = slice(0, 128)
         elif k == 2:
-            constraints.append(RouteEndpointConstraint(v, Routes(a)))
-            allocations[v] = {}
+            new_constraints.append(EndpointClass(vobj[v], Routes(a)))
+            new_alloc[vobj[v]] = {}
         # kind 0: no allocation entry at all for even vertices, an empty one for odd vertices
         elif v % 2:
-            allocations[v] = {}
-    the_net = Net(0, list(net["sinks"]))
+            new_alloc[vobj[v]] = {}
+    if core_key is not Cores:
+        tags.append("api_core_resource_" + cr_mode)
+    if api.get("extra_constraints"):
+        stranger = _PlainVertex(-2)
+        new_constraints.insert(0, LocationConstraint(vobj[0], (0, 0)))
+        new_constraints.append(ReserveResourceConstraint(Cores, slice(0, 1)))
+        new_constraints.append(SameChipConstraint([vobj[0], stranger]))
+        new_constraints.append(EndpointClass(stranger, Routes(0)))
+        tags.append("api_unrelated_constraints")
+    if api.get("placements_extra"):
+        new_place[_PlainVertex(-3)] = mk_chip((0, 0))
+        new_alloc[_PlainVertex(-4)] = {core_key: slice(0, 18)}
+        tags.append("api_vertices_outside_the_net")
+    if shared and "placements" in env:
+        place, allocations, constraints = env["placements"], env["allocations"], env["constraints"]
+        place.clear()
+        place.update(new_place)
+        allocations.clear()
+        allocations.update(new_alloc)
+        del constraints[:]
+        constraints.extend(new_constraints)
+        tags.append("hist_passed_dicts_edited_in_place")
+    else:
+        place, allocations, constraints = new_place, new_alloc, new_constraints
+    if env is not None:
+        env["placements"], env["allocations"], env["constraints"] = place, allocations, constraints
+    NetClass = Net
+    if api.get("net_subclass"):
+        class NetClass(Net):
+            pass
+        tags.append("api_net_subclass")
+    sink_objs = [vobj[v] for v in net["sinks"]]
+    if shared and isinstance(env.get("net"), Net):
+        the_net = env["net"]                  # the same Net object, edited in place
+        the_net.source = vobj[0]
+        the_net.sinks[:] = sink_objs
+        tags.append("hist_net_edited_in_place")
+    elif api.get("bare_sink") and len(sink_objs) == 1 and not isinstance(sink_objs[0], list):
+        the_net = NetClass(vobj[0], sink_objs[0], api.get("weight", 1.0))      # `sinks : list or vertex`
+        tags.append("api_single_sink_not_in_a_list")
+    else:
+        the_net = NetClass(vobj[0], list(sink_objs), api.get("weight", 1.0))
+    if env is not None:
+        env["net"] = the_net
+    nets_as = api.get("nets_as", "list")
+    nets_arg = {"list": lambda: [the_net], "tuple": lambda: (the_net,), "generator": lambda: (n for n in [the_net]),
+                "iter": lambda: iter([the_net]), "dictkeys": lambda: {the_net: 1}.keys()}[nets_as]()
+    cons_as = api.get("constraints_as", "list")
+    cons_arg = {"list": lambda: constraints, "tuple": lambda: tuple(constraints),
+                "generator": lambda: (c for c in constraints)}[cons_as]()
+    if nets_as != "list":
+        tags.append("api_nets_as_" + nets_as)
+    if cons_as != "list":
+        tags.append("api_constraints_as_" + cons_as)
+    res_arg = {"real": {v: {Cores: 1} for v in place}, "empty": {}, "none": None}[api.get("resources_arg", "real")]
+    radius = net["radius"]
+    r_mode = api.get("radius_as", "positional")
+    if r_mode == "bool" and radius in (0, 1):
+        radius_arg = bool(radius)
+        tags.append("api_radius_bool")
+    elif r_mode == "intenum":
+        radius_arg = enum.IntEnum("Radius", {"r": radius} if radius else {"z": 0})(radius)
+        tags.append("api_radius_intenum")
+    else:
+        radius_arg = radius
+    args = [res_arg, nets_arg, machine, cons_arg, place]
+    kwargs = {}
+    call = api.get("call", "positional")
+    if api.get("allocations") == "omitted" and not any(k[0] == 1 for k in kinds.values()):
+        tags.append("api_allocations_omitted")
+        tail = []
+    else:
+        tail = [("allocations", allocations)]
+    omit_cr = cr_mode == "omitted" or (cr_mode == "positional" and not tail)
+    if core_key is not Cores or not omit_cr:
+        tail.append(("core_resource", core_key))
+    else:
+        tags.append("api_core_resource_omitted")
+    if r_mode == "omitted" and radius == 20:
+        tags.append("api_radius_omitted")
+    else:
+        tail.append(("radius", radius_arg))
+    # positional arguments must be a prefix of the documented order; the rest go by keyword
+    names = ["allocations", "core_resource", "radius"]
+    n_pos = 0
+    if call == "positional" or (call == "mixed" and cr_mode != "keyword" and r_mode != "keyword"):
+        while n_pos < len(tail) and tail[n_pos][0] == names[n_pos]:
+            n_pos += 1
+        if cr_mode == "keyword" or r_mode == "keyword":
+            n_pos = min(n_pos, 1)
+    for i, (k, v) in enumerate(tail):
+        if i < n_pos:
+            args.append(v)
+        else:
+            kwargs[k] = v
+    if call == "keyword":
+        kwargs.update(vertices_resources=args[0], nets=args[1], machine=args[2], constraints=args[3],
+                      placements=args[4])
+        for k, v in zip(names, args[5:]):
+            kwargs[k] = v
+        args = []
+        tags.append("api_all_arguments_by_keyword")
+    elif kwargs:
+        tags.append("api_optional_arguments_by_keyword")
     rec = dict(tape=[], dests=None, ner=None, wrap=None, copy=None, order=None, paths=[], astar_calls=[],
-               lookup=None, repaired=False)
+               lookup=None, repaired=False, api_tags=tags)
     fake = FakeRandom(case["rseed"], rec["tape"])
     orig = (geometry.random, rutils.random, ner.ner_net, ner.copy_and_disconnect_tree, ner.a_star,
             ner.avoid_dead_links)
@@ -370,7 +667,7 @@ def run_impl(case):
     # which neighbour search each destination of ner_net used (observed from outside: the per-node scan calls a
     # path-length function for every route node, the concentric-hexagon spiral calls none), and whether the route
     # to it started at the source because nothing was within `radius` hops
-    cur = dict(dist_calls=0, source=tuple(place[0]), radius=net["radius"])
+    cur = dict(dist_calls=0, source=tuple(net["place"]["0"]), radius=net["radius"])
     rec["branches"] = []
     o_geo = (ner.longest_dimension_first, ner.shortest_mesh_path_length, ner.shortest_torus_path_length)
 
@@ -395,8 +692,11 @@ def run_impl(case):
         w_ldf, w_mesh_len, w_torus_len
     try:
         try:
-            routes = ner.route({v: {} for v in place}, [the_net], machine, constraints, place, allocations,
-                               Cores, net["radius"])
+            with common.cpu_limit(cpu_budget(mach)):
+                routes = ner.route(*args, **kwargs)
+        except common.ImplHang as e:
+            _HANGS[0] += 1
+            return {"err": "DidNotReturn", "msg": str(e)[:200]}, rec
         except RecursionError as e:
             return {"err": "RecursionError"}, rec
         except Exception as e:      # every exception is an outcome to be judged
@@ -416,13 +716,25 @@ def run_impl(case):
                 alias = True
     leaves = {}
     for chip, node in lookup.items():
-        lv = [[None if r is None else int(r), c] for r, c in node.children if not isinstance(c, RoutingTree)]
+        lv = [[None if r is None else int(r), vid.get(c, -1) if _hashable(c) else -1] for r, c in node.children
+              if not isinstance(c, RoutingTree)]
         if lv:
             leaves["%d,%d" % chip] = lv
     budget = [2 * mach["w"] * mach["h"] + 10]
     res = {"ok": dict(forest=forest, root=list(root.chip), leaves=leaves, alias=alias,
-                      root_is_lookup=lookup.get(root.chip) is root, tree=flat_tree(root, budget[0]))}
+                      root_is_lookup=lookup.get(root.chip) is root,
+                      tree=flat_tree(root, budget[0], lambda c: vid.get(c, -1) if _hashable(c) else -1))}
+    if env is not None:
+        env["last"] = dict(routes=routes, root=root, net=the_net, vid=vid, budget=budget[0])
     return res, rec
+
+
+def _hashable(x):
+    try:
+        hash(x)
+        return True
+    except TypeError:
+        return False
 
 
 # --------------------------------------------------------------------------------------------
@@ -478,8 +790,11 @@ def group_leaves(flat):
     return out
 
 
-def eval_cases(ctx, cases):
-    impl = [run_impl(c) for c in cases]
+def eval_cases(ctx, cases, impl=None, report=None, count=True):
+    """run (unless `impl` is given) and judge single-net cases; `report[i]` is the replayable payload a finding
+    on case i is reported with (the whole history for a step of a history)"""
+    if impl is None:
+        impl = [run_impl(c) for c in cases]
     reqs = []
     for c, (res, rec) in zip(cases, impl):
         mach, net = c["machine"], c["net"]
@@ -495,25 +810,26 @@ def eval_cases(ctx, cases):
                 reqs.append(mreq(mach, op="path_ok", sink=call["sink"], sources=call["sources"], path=call["path"]))
     replies = iter(ctx.lean(reqs))
     legacy_q = []
-    for c, (res, rec) in zip(cases, impl):
+    for ci, (c, (res, rec)) in enumerate(zip(cases, impl)):
         mach, net = c["machine"], c["net"]
+        rc = report[ci] if report is not None else c
         minfo = next(replies)
         model = next(replies)
         verdict = next(replies) if "ok" in res else None
         for call in rec["astar_calls"]:
             if "path" in call and next(replies) is not True:
                 ctx.mismatch("c03.a_star_spec", "the Lean specification pathOk is false on a path a_star returned "
-                             "inside route(): %s" % str(call)[:300], c)
+                             "inside route(): %s" % str(call)[:300], rc)
         ctx.traces += 1
         # --- helpers of the specification, model vs independent Python / implementation
         strong = py_strong(mach)
         if minfo.get("strong") != strong:
-            ctx.mismatch("c03.strongly_connected", "lean=%r python=%r" % (minfo.get("strong"), strong), c)
+            ctx.mismatch("c03.strongly_connected", "lean=%r python=%r" % (minfo.get("strong"), strong), rc)
         if rec["wrap"] is not None and minfo.get("wrap") != rec["wrap"]:
-            ctx.mismatch("c03.has_wrap_around_links", "lean=%r impl=%r" % (minfo.get("wrap"), rec["wrap"]), c)
+            ctx.mismatch("c03.has_wrap_around_links", "lean=%r impl=%r" % (minfo.get("wrap"), rec["wrap"]), rc)
         # --- stage-wise correspondence
         if "proto_error" in model or "proto_error" in minfo:
-            ctx.mismatch("c03.protocol", repr(model)[:300], c)
+            ctx.mismatch("c03.protocol", repr(model)[:300], rc)
             continue
         diffs = []
         if "ok" in model:
@@ -549,7 +865,7 @@ def eval_cases(ctx, cases):
                 diffs.append(("disconnected_theorem", "Disconnected", "stronglyConnected = true"))
         if diffs:
             st, a, b = diffs[0]
-            ctx.mismatch("c03." + st, "first differing stage %s: model=%s impl=%s" % (st, str(a)[:400], str(b)[:400]), c)
+            ctx.mismatch("c03." + st, "first differing stage %s: model=%s impl=%s" % (st, str(a)[:400], str(b)[:400]), rc)
             ctx.tag("mismatch_" + st)
         # --- the property oracle on the implementation's own outcome
         if "ok" in res:
@@ -557,16 +873,24 @@ def eval_cases(ctx, cases):
                 why = verdict.get("why") or ["protocol"]
                 ctx.violation(why[0], "route() returned a tree that is not a valid routing tree (%s); machine %dx%d, "
                               "source %r, sinks %r" % (",".join(why), mach["w"], mach["h"], net["place"]["0"],
-                                                       sinks_json(net)), c)
+                                                       sinks_json(net)), rc)
             ctx.tag("ok_repaired" if rec["repaired"] else "ok_clean")
+            if rec.get("lazy_iter_diff"):
+                ctx.mismatch("c03.lazy_iteration", rec["lazy_iter_diff"], rc)
             if verdict.get("stubs"):
                 ctx.tag("stub_branch_left_by_repair")
         elif res["err"] == "Disconnected":
             if minfo.get("strong") and strong:
                 ctx.violation("disconnected-on-connected-machine",
                               "route() raised MachineHasDisconnectedSubregion although every working chip reaches "
-                              "every other over working links: %s" % res.get("msg"), c)
+                              "every other over working links: %s" % res.get("msg"), rc)
             ctx.tag("err_disconnected")
+        elif res["err"] == "DidNotReturn":
+            ctx.violation("did-not-return",
+                          "route() did not return (%s) on a %dx%d machine, %d sinks, radius %d; the model of route() "
+                          "terminates on every input (route_only_failure: fuel is never exhausted)"
+                          % (res.get("msg"), mach["w"], mach["h"], len(net["sinks"]), net["radius"]), rc)
+            ctx.tag("err_DidNotReturn")
         else:
             ctx.violation("undocumented-exception",
                           "route() raised %s (%s) on a %dx%d machine (%d dead links, %d dead chips, working chips %s "
@@ -574,12 +898,14 @@ def eval_cases(ctx, cases):
                           "permitted failure is MachineHasDisconnectedSubregion"
                           % (res["err"], res.get("msg"), mach["w"], mach["h"], len(mach["dead_links"]),
                              len(mach["dead_chips"]), "strongly" if strong else "NOT strongly", net["place"]["0"],
-                             len(net["sinks"]), net["radius"], len(rec["ner"]) if rec["ner"] is not None else "?"), c)
+                             len(net["sinks"]), net["radius"], len(rec["ner"]) if rec["ner"] is not None else "?"), rc)
             ctx.tag("err_" + res["err"])
         # --- distribution
         ctx.tag("wrap" if rec["wrap"] else "nowrap")
         ctx.tag("strong" if strong else "not_strong")
         ctx.tag("radius_%d" % net["radius"])
+        if net["radius"] > max(mach["w"], mach["h"]):
+            ctx.tag("radius_beyond_the_machine")
         if mach["w"] <= 2 or mach["h"] <= 2:
             ctx.tag("thin_machine")
         if mach["dead_chips"]:
@@ -615,7 +941,10 @@ def eval_cases(ctx, cases):
             ctx.tag("sink_on_source_chip")
         if len(rec["tape"]) % 7 and rec["wrap"]:
             ctx.tag("spiral_randint")
-        ctx.case(c, bool(rec["paths"]) or ndest >= 3)
+        for t in rec.get("api_tags", []):
+            ctx.tag(t)
+        if count:
+            ctx.case(c, bool(rec["paths"]) or ndest >= 3)
 
 
 # --------------------------------------------------------------------------------------------
@@ -758,11 +1087,227 @@ def extreme_cases(ctx):
         add(strip_machine(1, 2100, True), [(0, 1049)], (0, 0), 0)
         add(strip_machine(2100, 1, False), [(2099, 0), (1000, 0)], (0, 0), 3)
         add(strip_machine(1500, 1, False), [(x, 0) for x in range(0, 1500, 13)], (1499, 0), 1)
+    # hundreds of sinks: a broadcast to every chip
+    n = 16 if ctx.quick else 24
+    bm = gen_large_machine(rng)
+    bm["w"], bm["h"], bm["dead_chips"] = n, n, []
+    bm["dead_links"] = [l for l in bm["dead_links"] if l[0] < n and l[1] < n]
+    cases.append(dict(machine=bm, net=strip_net([(x, y) for x in range(n) for y in range(n) if (x, y) != (n // 2, 1)],
+                                                (n // 2, 1), rng.choice([1, 2, 20])),
+                      rseed=rng.randrange(1 << 30), stream="extreme_shape"))
     # deep trees AND the dead-link repair: one dead directed link on the way (the machine stays strongly
     # connected: the ring can be walked the other way round / the other row is intact)
     add(strip_machine(2100, 1, True, [(5, 0, 0)]), [(1040, 0)], (0, 0), 20)
     add(strip_machine(1200, 2, False, [(30, 0, 0)]), [(1150, 0)], (0, 0), 20)
     return cases
+
+
+# --------------------------------------------------------------------------------------------
+# HISTORIES: several route() calls in ONE process on objects the caller keeps, edits and passes again
+def twin_of(rng, step):
+    """a case equal to `step` in all but one aspect; returns (twin, what differs)"""
+    import copy
+    t = copy.deepcopy(step)
+    mach, net = t["machine"], t["net"]
+    dead = set(map(tuple, mach["dead_chips"]))
+    live = [(x, y) for x in range(mach["w"]) for y in range(mach["h"]) if (x, y) not in dead]
+    what = rng.choice(["same", "same", "radius", "dead_link", "live_link", "sink_added", "sink_removed", "sink_moved",
+                       "cores", "api", "tape", "cut_off", "other_machine"])
+    if what == "radius":
+        net["radius"] = rng.choice([r for r in [0, 1, 2, 3, 20, 64] if r != net["radius"]])
+    elif what == "dead_link":
+        x, y = rng.choice(live)
+        l = rng.randrange(6)
+        if [x, y, l] not in mach["dead_links"]:
+            mach["dead_links"] = sorted(mach["dead_links"] + [[x, y, l]])
+    elif what == "live_link":
+        if mach["dead_links"]:
+            mach["dead_links"].remove(rng.choice(mach["dead_links"]))
+    elif what == "sink_added":
+        v = len(net["place"])
+        net["place"][str(v)] = list(rng.choice(live))
+        net["kinds"][str(v)] = gen_kind(rng)
+        net["sinks"].append(v)
+        if t.get("api"):
+            t["api"]["vkinds"] = t["api"]["vkinds"] + [rng.choice(VKINDS)]
+    elif what == "sink_removed":
+        if net["sinks"]:
+            net["sinks"].pop(rng.randrange(len(net["sinks"])))
+    elif what == "sink_moved":
+        if len(net["place"]) > 1:
+            v = rng.randrange(1, len(net["place"]))
+            net["place"][str(v)] = list(rng.choice(live))
+    elif what == "cores":
+        v = rng.randrange(len(net["place"]))
+        net["kinds"][str(v)] = gen_kind(rng)
+    elif what == "api":
+        t["api"] = gen_api(rng, net)
+    elif what == "tape":
+        t["rseed"] = rng.randrange(1 << 30)
+    elif what == "cut_off":
+        # every link INTO one sink chip is dead: the machine is disconnected and route() must say so
+        chips = [tuple(net["place"][str(v)]) for v in net["sinks"] if net["place"][str(v)] != net["place"]["0"]]
+        if chips:
+            cx, cy = rng.choice(chips)
+            extra = [[(cx - dx) % mach["w"], (cy - dy) % mach["h"], l] for l, (dx, dy) in enumerate(VECS)]
+            mach["dead_links"] = sorted(set(map(tuple, mach["dead_links"])) | set(map(tuple, extra)))
+            mach["dead_links"] = [list(e) for e in mach["dead_links"]]
+    elif what == "other_machine":
+        t["machine"] = gen_machine(rng, SIZES_H)
+        t["net"] = gen_net(rng, t["machine"])
+        t["api"] = gen_api(rng, t["net"]) if rng.random() < 0.5 else None
+    if what in ("api", "other_machine") or not t.get("api"):
+        pass
+    # the api options that depend on the net must stay legal
+    if t.get("api"):
+        a = t["api"]
+        a["vkinds"] = (a["vkinds"] + ["int"] * len(t["net"]["place"]))[:len(t["net"]["place"])]
+        if any(k[0] == 1 for k in t["net"]["kinds"].values()):
+            a["allocations"] = "given"
+    return t, what
+
+
+SIZES_H = [(1, 1), (1, 3), (2, 1), (2, 2), (2, 3), (3, 3), (3, 4), (4, 4), (5, 5), (6, 4), (7, 2), (8, 8)]
+
+
+def gen_history(rng):
+    mach = gen_machine(rng, SIZES_H)
+    net = gen_net(rng, mach)
+    first = dict(machine=mach, net=net, rseed=rng.randrange(1 << 30),
+                 api=gen_api(rng, net) if rng.random() < 0.6 else None)
+    steps, notes = [first], ["first"]
+    for _ in range(rng.randint(1, 4)):
+        base = rng.choice(steps)
+        t, what = twin_of(rng, base)
+        if rng.random() < 0.3 and len(steps) == 1:
+            steps.insert(0, t)                   # the twin pair in the other order
+            notes.insert(0, what + "_first")
+        else:
+            steps.append(t)
+            notes.append(what)
+    for st in steps:
+        st["after"] = rng.choice(["keep", "keep", "vandalise", "lazy", "nothing"])
+    return dict(kind="history", steps=steps, notes=notes, share=rng.random() < 0.5)
+
+
+def vandalise(rng_seed, last):
+    """the caller edits in place what it was handed back: the routes dict and the tree's nodes"""
+    from rig.place_and_route.routing_tree import RoutingTree
+    from rig.routing_table import Routes
+    r = _random.Random(rng_seed)
+    root, routes = last["root"], last["routes"]
+    nodes = list(node_ids(root, 5000).values())
+    for _ in range(r.randint(1, 4)):
+        how = r.randrange(6)
+        n = r.choice(nodes)
+        if how == 0:
+            del n.children[:]
+        elif how == 1:
+            n.children.append((Routes(r.randrange(6)), "junk %s {}"))
+        elif how == 2:
+            n.children.reverse()
+        elif how == 3:
+            n.chip = (n.chip[0] + 1, n.chip[1])
+        elif how == 4:
+            n.children.append((Routes(r.randrange(6)), root))          # a cycle
+        else:
+            routes.clear()
+
+
+def run_history(hist):
+    """all steps of a history in order, in one process, after a fresh (re)load of the router module (module-level
+    state: the memoised hexagons, default arguments) so that a replay reproduces"""
+    import importlib
+    from rig.place_and_route.route import ner
+    from harness import common
+    importlib.reload(ner)
+    env = dict(share=bool(hist.get("share")))
+    kept, pending, out = [], [], []
+    for i, step in enumerate(hist["steps"]):
+        res, rec = run_impl(step, env)
+        rec["kept_changed"] = []
+        # (c) results handed out earlier must still be what they were
+        for (j, root, vid, budget, snap) in kept:
+            try:
+                now = flat_tree(root, budget, lambda c: vid.get(c, -1) if _hashable(c) else -1)
+            except Exception as e:
+                now = repr(e)
+            if now != snap:
+                rec["kept_changed"].append(j)
+        kept = [k for k in kept if k[0] not in rec["kept_changed"]]
+        # (d) iterators handed out earlier are resumed after this call
+        for (j, its, full) in pending:
+            try:
+                with common.cpu_limit(5):
+                    rest = [[id(n) for n in its[0]], [t[1] for t in its[1]]]
+                got = [its[2][0] + rest[0], its[2][1] + rest[1]]
+                if got != full:
+                    rec["lazy_iter_diff"] = "iterators over the tree of step %d resumed after a later route() call " \
+                        "yield %d / %d items, a fresh iteration %d / %d" % (j, len(got[0]), len(got[1]),
+                                                                           len(full[0]), len(full[1]))
+            except (Exception, common.ImplHang) as e:
+                rec["lazy_iter_diff"] = "resuming the iterators of step %d: %r" % (j, e)
+        pending = []
+        if "ok" in res:
+            last = env["last"]
+            after = step.get("after", "nothing")
+            rec["api_tags"].append("hist_result_" + after)
+            if after == "keep":
+                kept.append((i, last["root"], last["vid"], last["budget"], res["ok"]["tree"]))
+            elif after == "vandalise":
+                vandalise(step["rseed"], last)
+            elif after == "lazy":
+                root = last["root"]
+                try:
+                    full = [[id(n) for n in root], [t[1] for t in root.traverse()]]
+                    it1, it2 = iter(root), root.traverse()
+                    head = [[], []]
+                    for _ in range(1 + step["rseed"] % 4):         # advanced alternately, then left half-way
+                        n = next(it1, None)
+                        if n is not None:
+                            head[0].append(id(n))
+                        t = next(it2, None)
+                        if t is not None:
+                            head[1].append(t[1])
+                    kept.append((i, root, last["vid"], last["budget"], res["ok"]["tree"]))
+                    pending.append((i, (it1, it2, head), full))
+                except RecursionError:
+                    pass
+        out.append((res, rec))
+    return out
+
+
+def eval_history(ctx, hists):
+    steps, impl, report = [], [], []
+    for h in hists:
+        outs = run_history(h)
+        for st, o in zip(h["steps"], outs):
+            steps.append(st)
+            impl.append(o)
+            report.append(h)
+    eval_cases(ctx, steps, impl=impl, report=report, count=False)
+    k = 0
+    for h in hists:
+        nontrivial = False
+        for i, st in enumerate(h["steps"]):
+            res, rec = impl[k]
+            k += 1
+            if rec["kept_changed"]:
+                ctx.violation("earlier-result-changed",
+                              "history of %d route() calls in one process: the tree(s) returned by call(s) %r were "
+                              "different objects after call %d returned (the caller had not touched them)"
+                              % (len(h["steps"]), rec["kept_changed"], i), h)
+            if "ok" in res and (rec["repaired"] or len(st["net"]["sinks"]) >= 2):
+                nontrivial = True
+        for n in h["notes"]:
+            ctx.tag("hist_twin_" + n)
+        ctx.tag("hist_steps_%d" % len(h["steps"]))
+        if h.get("share"):
+            ctx.tag("hist_caller_reuses_and_edits_passed_objects")
+        errs = ["err" in impl_i[0] for impl_i in impl[k - len(h["steps"]):k]]
+        if any(errs[:-1]):
+            ctx.tag("hist_continued_after_a_failed_call")
+        ctx.case(h, nontrivial)
 
 
 # --------------------------------------------------------------------------------------------
@@ -881,6 +1426,7 @@ def run_impl_multi(case):
     from rig.netlist import Net
     from rig.routing_table import Routes
 
+    from harness import common
     mach = case["machine"]
     machine = build_machine(mach)
     place = {int(k): tuple(v) for k, v in case["place"].items()}
@@ -943,8 +1489,12 @@ def run_impl_multi(case):
     ner.ner_net, ner.copy_and_disconnect_tree, ner.a_star, ner.avoid_dead_links = w_ner_net, w_copy, w_a_star, w_avoid
     try:
         try:
-            routes = ner.route({v: {} for v in place}, list(objs), machine, constraints, place, allocations,
-                               Cores, case["radius"])
+            with common.cpu_limit(cpu_budget(mach)):
+                routes = ner.route({v: {} for v in place}, list(objs), machine, constraints, place, allocations,
+                                   Cores, case["radius"])
+        except common.ImplHang as e:
+            _HANGS[0] += 1
+            return {"err": "DidNotReturn", "msg": str(e)[:200], "tape": tape}, recs
         except RecursionError as e:
             return {"err": "RecursionError", "tape": tape}, recs
         except Exception as e:      # every exception is an outcome to be judged
@@ -1035,6 +1585,10 @@ def eval_multi(ctx, cases):
                               "route() raised MachineHasDisconnectedSubregion although every working chip reaches "
                               "every other over working links: %s" % res.get("msg"), c)
             ctx.tag("multi_err_disconnected")
+        elif res["err"] == "DidNotReturn":
+            ctx.violation("did-not-return", "route() with %d nets did not return (%s); the model terminates on every "
+                          "input (routeNets_only_failure)" % (len(nets), res.get("msg")), c)
+            ctx.tag("multi_err_DidNotReturn")
         else:
             ctx.violation("undocumented-exception",
                           "route() raised %s (%s); the only permitted failure is MachineHasDisconnectedSubregion"
@@ -1122,23 +1676,41 @@ def gen_component(rng):
         others = [c for c in live if c != sink]
         srcs = rng.sample(others, min(len(others), rng.choice([1, 1, 2, 3, 6])))
         return dict(kind="a_star", machine=mach, sink=list(sink), sources=sorted(map(list, srcs)),
-                    hsrc=list(rng.choice(srcs)), wrap=rng.random() < 0.5)
+                    hsrc=list(rng.choice(srcs)), wrap=rng.random() < 0.5,
+                    how=rng.choice(["set", "frozenset", "keyword", "subclass"]))
     k = rng.choice([0, 1, 2, 5, 13])
     vec = [rng.randint(-k, k), rng.randint(-k, k), rng.choice([0, 0, rng.randint(-k, k)])]
-    return dict(kind="ldf", machine=mach, vector=vec, start=list(rng.choice(live)), rseed=rng.randrange(1 << 30))
+    return dict(kind="ldf", machine=mach, vector=vec, start=list(rng.choice(live)), rseed=rng.randrange(1 << 30),
+                how=rng.choice(["positional", "positional", "keyword", "no_size", "vector_only", "list_args"]))
 
 
 def eval_components(ctx, cases):
     from rig.place_and_route.route import ner
     from rig.place_and_route.route import utils as rutils
+    from harness import common
     reqs, outs = [], []
     for c in cases:
         mach = c["machine"]
+        how = c.get("how", "positional")
+        ctx.tag("direct_%s_call_%s" % (c["kind"], how))
         if c["kind"] == "a_star":
             try:
-                path = ner.a_star(tuple(c["sink"]), tuple(c["hsrc"]), set(map(tuple, c["sources"])),
-                                  build_machine(mach), c["wrap"])
+                machine = build_machine(mach)
+                if how == "subclass":
+                    class SubMachine(type(machine)):
+                        pass
+                    machine = SubMachine(mach["w"], mach["h"], dead_chips=machine.dead_chips,
+                                         dead_links=machine.dead_links)
+                srcs = (frozenset if how == "frozenset" else set)(map(tuple, c["sources"]))
+                with common.cpu_limit(cpu_budget(mach)):
+                    if how == "keyword":
+                        path = ner.a_star(sink=tuple(c["sink"]), heuristic_source=tuple(c["hsrc"]), sources=srcs,
+                                          machine=machine, wrap_around=c["wrap"])
+                    else:
+                        path = ner.a_star(tuple(c["sink"]), tuple(c["hsrc"]), srcs, machine, c["wrap"])
                 out = {"ok": [[int(d), n[0], n[1]] for d, n in path]}
+            except common.ImplHang as e:
+                out = {"err": "DidNotReturn"}
             except Exception as e:
                 out = {"err": err_name(e)}
             reqs.append(mreq(mach, op="a_star", sink=c["sink"], hsrc=c["hsrc"], sources=c["sources"], wrap=c["wrap"]))
@@ -1148,16 +1720,42 @@ def eval_components(ctx, cases):
             fake = FakeRandom(c["rseed"], tape)
             orig = rutils.random
             rutils.random = fake
+            # without width / height the walk does not wrap: the model (which always wraps) is asked for the same
+            # walk far inside a huge machine and the answer is shifted back
+            K, BIG = 1000, 4000
+            start = tuple(c["start"]) if how != "vector_only" else (0, 0)
             try:
-                p = rutils.longest_dimension_first(tuple(c["vector"]), tuple(c["start"]), mach["w"], mach["h"])
-                out = {"ok": [[int(d), n[0], n[1]] for d, n in p]}
+                with common.cpu_limit(5):
+                    if how == "keyword":
+                        p = rutils.longest_dimension_first(vector=tuple(c["vector"]), start=start, width=mach["w"],
+                                                           height=mach["h"])
+                    elif how == "no_size":
+                        p = rutils.longest_dimension_first(tuple(c["vector"]), start)
+                    elif how == "vector_only":
+                        p = rutils.longest_dimension_first(tuple(c["vector"]))
+                    elif how == "list_args":
+                        p = rutils.longest_dimension_first(list(c["vector"]), list(start), mach["w"], mach["h"])
+                    else:
+                        p = rutils.longest_dimension_first(tuple(c["vector"]), start, mach["w"], mach["h"])
+                if how in ("no_size", "vector_only"):
+                    out = {"ok": [[int(d), n[0] + K, n[1] + K] for d, n in p]}
+                else:
+                    out = {"ok": [[int(d), n[0], n[1]] for d, n in p]}
+            except common.ImplHang as e:
+                out = {"err": "DidNotReturn"}
             except Exception as e:
                 out = {"err": err_name(e)}
             finally:
                 rutils.random = orig
-            reqs.append(dict(suite="c03", op="ldf", vector=c["vector"], start=c["start"], w=mach["w"], h=mach["h"],
-                             tape=tape))
-            reqs.append(mreq(mach, op="hops_from", start=c["start"], path=out.get("ok", [])))
+            if how in ("no_size", "vector_only"):
+                big = dict(w=BIG, h=BIG, dead_chips=[], dead_links=[])
+                st = [start[0] + K, start[1] + K]
+                reqs.append(dict(suite="c03", op="ldf", vector=c["vector"], start=st, w=BIG, h=BIG, tape=tape))
+                reqs.append(mreq(big, op="hops_from", start=st, path=out.get("ok", [])))
+            else:
+                reqs.append(dict(suite="c03", op="ldf", vector=c["vector"], start=c["start"], w=mach["w"],
+                                 h=mach["h"], tape=tape))
+                reqs.append(mreq(mach, op="hops_from", start=c["start"], path=out.get("ok", [])))
         outs.append(out)
     rep = iter(ctx.lean(reqs))
     for c, out in zip(cases, outs):
@@ -1181,7 +1779,9 @@ def gen_cases(ctx, n):
     cases = []
     for i in range(n):
         mach = gen_machine(ctx.rng, SIZES_Q)
-        cases.append(dict(machine=mach, net=gen_net(ctx.rng, mach), rseed=ctx.rng.randrange(1 << 30)))
+        net = gen_net(ctx.rng, mach)
+        cases.append(dict(machine=mach, net=net, rseed=ctx.rng.randrange(1 << 30),
+                          api=gen_api(ctx.rng, net) if ctx.rng.random() < 0.5 else None))
     return cases
 
 
@@ -1207,6 +1807,9 @@ def run(ctx):
         "routes are members of Routes (what place()/allocate() and the constraint classes produce)",
         "the model proves termination (fuel never exhausted) but does not model the interpreter's stack: that route() "
         "does not raise RecursionError on deep trees is validated by the extreme-shape stream (trees up to ~2100 levels)",
+        "radius <= 64 in every generator: route(radius=R) builds all 3R(R+1)+1 hexagon offsets whatever the machine "
+        "(R = 1000 on a 4x4 machine: 1.8 s and 460 MB, kept by the memo; R = 10^5 cannot complete) - reported, not "
+        "generated",
         "independence of the nets of one call is a theorem about the model (routeNets_independent) and is validated "
         "on the code by the multi-net stream (per-net oracle, per-net correspondence, no shared node objects)",
         "whole-net validity and the error clause are proved for the Lean model on every machine (routeNet_valid, "
@@ -1214,7 +1817,8 @@ def run(ctx):
     cdir = os.path.join(os.path.dirname(os.path.dirname(os.path.abspath(__file__))), "corpus", "C03")
     if os.path.isdir(cdir):
         corpus = [json.load(open(os.path.join(cdir, f)))["case"] for f in sorted(os.listdir(cdir)) if f.endswith(".json")]
-        eval_cases(ctx, [c for c in corpus if c.get("kind") != "multi"])
+        eval_cases(ctx, [c for c in corpus if c.get("kind") not in ("multi", "history")])
+        eval_history(ctx, [c for c in corpus if c.get("kind") == "history"])
         eval_multi(ctx, [c for c in corpus if c.get("kind") == "multi"])
         ctx.tag(*["corpus"] * len(corpus))
     n = ctx.scale(1500, 60000)
@@ -1229,6 +1833,9 @@ def run(ctx):
     for i in range(0, len(large), 500):
         eval_cases(ctx, large[i:i + 500])
     eval_cases(ctx, extreme_cases(ctx))
+    hists = [gen_history(ctx.rng) for _ in range(ctx.scale(250, 6000) * (4 if ctx.extended and ctx.quick else 1))]
+    for i in range(0, len(hists), 500):
+        eval_history(ctx, hists[i:i + 500])
     nm = ctx.scale(500, 15000) * (4 if ctx.extended and ctx.quick else 1)
     multi = [gen_multi(ctx.rng, gen_machine(ctx.rng, SIZES_Q)) for _ in range(nm)]
     for i in range(0, len(multi), 1000):
@@ -1245,5 +1852,7 @@ def replay(ctx, payload):
         eval_components(ctx, [case])
     elif case.get("kind") == "multi":
         eval_multi(ctx, [case])
+    elif case.get("kind") == "history":
+        eval_history(ctx, [case])
     else:
         eval_cases(ctx, [case])
